@@ -9,10 +9,11 @@ open SigModel.Promql
 /-- every series of the query satisfies the string guard -/
 def AllSafe (q : Query) (ss : List Series) : Prop := ∀ s ∈ ss, LabelSafe q.name s.labels
 
-/-- `count` with an empty field list is only right for `by ()` over distinct label sets: computeAggCount
-puts everything under `name{` (also for `without ()`) and counts distinct series ids -/
-def CountOK (q : Query) (ss : List Series) : Prop :=
-  q.fn = .count → q.fields = [] → (q.without = false ∧ (ss.map (·.labels)).Nodup)
+/-- `count` with an empty field list is only right for `by ()`: computeAggCount puts everything under `name{`
+(also for `without ()`).  (Before patch c09-26 it also counted distinct series ids, and the guard had to ask for
+pairwise distinct label sets.) -/
+def CountOK (q : Query) (_ss : List Series) : Prop :=
+  q.fn = .count → q.fields = [] → q.without = false
 
 theorem spec_nofields_by (labels : Labels) : specGroupKey [] false labels = [] := by
   simp [specGroupKey]
@@ -28,7 +29,7 @@ theorem members_eq_specMembers {q : Query} {ss : List Series} (hs : AllSafe q ss
   have S := safe_of_labelSafe (hs s hsm)
   have S0 := safe_of_labelSafe (hs s0 h0)
   by_cases hcnt : q.fn = .count ∧ q.fields = []
-  · obtain ⟨hw, _⟩ := hc hcnt.1 hcnt.2
+  · have hw := hc hcnt.1 hcnt.2
     simp only [groupOf, hcnt, and_self, if_true, hw, spec_nofields_by]
     simp [render, joinWith]
   · simp only [groupOf, hcnt, if_false, sidOf]
@@ -72,7 +73,7 @@ theorem aggAt_members (q : Query) (ss : List Series) (g : Str) (t : Nat) :
       let ms := members q ss g t
       if ms.isEmpty then none
       else some (match q.fn with
-        | .count => if q.fields = [] then ((dedup (ms.map (sidOf q))).length : Rat) else (ms.length : Rat)
+        | .count => (ms.length : Rat)
         | fn => reduceRunning fn (ms.map (fun s => mkEntry q.fn q.step t s.pts))) := by
   unfold aggAt
   simp only [members_isEmpty]
@@ -100,15 +101,7 @@ theorem aggAt_eq_specAt {q : Query} {ss : List Series} (hs : AllSafe q ss) (hc :
     simp only [Bool.false_eq_true, if_false]
     congr 1
     cases hfn : q.fn with
-    | count =>
-      simp only [specValue]
-      by_cases hf : q.fields = []
-      · obtain ⟨_, hn⟩ := hc hfn hf
-        have hsub : (specMembers q ss (specGroupKey q.fields q.without s0.labels) t).Sublist ss :=
-          List.filter_sublist
-        rw [if_pos hf, dedup_eq_self (sids_nodup hs hsub hn)]
-        simp
-      · rw [if_neg hf]
+    | count => simp only [specValue]
     | sum => simpa [hfn] using reduceRunning_spec .sum (by decide) q.step t _
     | avg => simpa [hfn] using reduceRunning_spec .avg (by decide) q.step t _
     | min => simpa [hfn] using reduceRunning_spec .min (by decide) q.step t _
@@ -174,7 +167,7 @@ theorem keys_are_spec {q : Query} {ss : List Series} (hs : AllSafe q ss) (hc : C
   rw [hg]
   have S := safe_of_labelSafe (hs s hss)
   by_cases hcnt : q.fn = .count ∧ q.fields = []
-  · obtain ⟨hw, _⟩ := hc hcnt.1 hcnt.2
+  · have hw := hc hcnt.1 hcnt.2
     simp only [groupOf, hcnt, and_self, if_true, hw, spec_nofields_by]
     simp [render, joinWith]
   · simp only [groupOf, hcnt, if_false, sidOf]
